@@ -248,40 +248,51 @@ macro_rules! c08_nearest_octave {
 // C09  hysteresis
 // =====================================================================
 
-// @harness prop=C09 tier=quick timeout=1500 unwindset=find_nearest_note:4,13
-// @about one conversion from any Inv_q state with history (any scale, cached note 0..=131), any finite or non-finite v: if the cached note is still allowed and v lies strictly inside its bucket widened by 0.1 semitone each side (edges evaluated in f64, +-1 microvolt don't-care band), the note is kept; if v is outside the window by more than the band, or the cached note is no longer allowed, note and stairstep equal those of a fresh quantizer with the same scale on the same input (differential, second real instance)
-#[kani::proof]
-#[kani::unwind(14)]
-fn c09_hysteresis_step() {
-    let mut q = any_quantizer(true);
-    let allowed = q.allowed;
-    let n0 = q.cached_conversion.note_num;
-    let v: f32 = kani::any();
-    let mut fresh = Quantizer::new();
-    fresh.allowed = allowed;
-    let c = q.convert(v);
-    let f = fresh.convert(v);
-    // window in exact arithmetic: (n0/12 - 0.1/12, n0/12 + 1.1/12) volts
-    let lo = (n0 as f64 - 0.1) / 12.0;
-    let hi = (n0 as f64 + 1.1) / 12.0;
-    let band = 1.0e-6;
-    let vv = v as f64;
-    let still_allowed = pitch_class_allowed(allowed, n0);
-    let inside = vv > lo + band && vv < hi - band;
-    let outside = v.is_nan() || vv < lo - band || vv > hi + band;
-    if still_allowed && inside {
-        vassert!(c.note_num == n0, "C09/inside-window-keeps-note");
-        vassert!(c.stairstep == n0 as f32 / 12.0, "C09/inside-window-keeps-stairstep");
-    }
-    if !still_allowed || outside {
-        vassert!(c.note_num == f.note_num, "C09/outside-window-equals-history-free-result");
-        vassert!(c.stairstep == f.stairstep && (c.fraction == f.fraction || v.is_nan()), "C09/outside-window-record-equals-history-free");
-    }
-    // in the don't-care band either answer is fine, but it must be one of the two
-    vassert!(c.note_num == f.note_num || (still_allowed && c.note_num == n0), "C09/result-is-kept-note-or-history-free");
-    vcover!(still_allowed && inside && n0 >= 12 && f.note_num != n0, "witness: hysteresis overrides above octave 0");
-    vcover!(!still_allowed && n0 >= 12, "witness: cached note above octave 0 was forbidden since");
-    vcover!(still_allowed && outside && n0 >= 24, "witness: left the window");
+// @family prop=C09 name=c09_hysteresis_step macro=c09_hysteresis_step n=11 quick=0,1,9,10 seeded=1 thorough=all timeout=2400 unwindset=find_nearest_note:4,13
+// @about octave slice k of the INPUT (k <= v < k+1; slice 0 also v < 0, -inf, NaN; slice 10: v >= 10 incl. +inf): one conversion from any Inv_q state with history (any scale, cached note 0..=131), any v in the slice: if the cached note is still allowed and v lies strictly inside its bucket widened by 0.1 semitone each side (edges in exact f64 arithmetic, +-1 microvolt don't-care band), the note is kept; if v is outside the window by more than the band, or the cached note is no longer allowed, note, stairstep and fraction equal those of a fresh quantizer with the same scale on the same input (differential, second real instance). quick: octaves 0, 1, 9, 10 + one VERIF_SEED-chosen; thorough: all 11
+macro_rules! c09_hysteresis_step {
+    ($name:ident, $k:expr) => {
+        #[kani::proof]
+        #[kani::unwind(14)]
+        fn $name() {
+            let mut q = any_quantizer(true);
+            let allowed = q.allowed;
+            let n0 = q.cached_conversion.note_num;
+            let v: f32 = kani::any();
+            let k: u32 = $k;
+            if k == 0 {
+                kani::assume(!(v >= 1.0));
+            } else if k == 10 {
+                kani::assume(v >= 10.0);
+            } else {
+                kani::assume(v >= k as f32 && v < (k + 1) as f32);
+            }
+            let mut fresh = Quantizer::new();
+            fresh.allowed = allowed;
+            let c = q.convert(v);
+            let f = fresh.convert(v);
+            // window in exact arithmetic, scaled by 12: (n0 - 0.1, n0 + 1.1) semitones; band 1 uV = 1.2e-5 semitone
+            let s = v as f64 * 12.0;
+            let lo = n0 as f64 - 0.1;
+            let hi = n0 as f64 + 1.1;
+            let band = 1.2e-5;
+            let still_allowed = pitch_class_allowed(allowed, n0);
+            let inside = s > lo + band && s < hi - band;
+            let outside = v.is_nan() || s < lo - band || s > hi + band;
+            if still_allowed && inside {
+                vassert!(c.note_num == n0, "C09/inside-window-keeps-note");
+                vassert!(c.stairstep == n0 as f32 / 12.0, "C09/inside-window-keeps-stairstep");
+            }
+            if !still_allowed || outside {
+                vassert!(c.note_num == f.note_num, "C09/outside-window-equals-history-free-result");
+                vassert!(c.stairstep == f.stairstep && (c.fraction == f.fraction || v.is_nan()), "C09/outside-window-record-equals-history-free");
+            }
+            vassert!(c.note_num == f.note_num || (still_allowed && c.note_num == n0), "C09/result-is-kept-note-or-history-free");
+            vcover!(still_allowed && inside && f.note_num != n0, "witness: hysteresis overrides the history-free result");
+            vcover!(!still_allowed && n0 >= 12, "witness: cached note above octave 0 was forbidden since");
+            vcover!(still_allowed && outside, "witness: left the window");
+        }
+    };
 }
 
 // =====================================================================
@@ -289,7 +300,7 @@ fn c09_hysteresis_step() {
 // =====================================================================
 
 // @harness prop=C19 tier=quick timeout=1500 unwindset=find_nearest_note:4,13
-// @about one conversion from any Inv_q state (with or without history), any scale, any f32 v: stairstep == note/12 (f32 division, exactly); for finite v in [0,10]: |stairstep + fraction - v| <= 2 ulp(v) (ulp of 1.0 below 1 V); outside [0,10]: stairstep + fraction reproduces v or its clamped value within the same tolerance; chromatic scale without history: 0 <= fraction < 1 semitone (+1 microvolt); when the window kept the previous note: -0.1 <= fraction <= 1.1 semitones
+// @about one conversion from any Inv_q state (with or without history), any scale, any f32 v: stairstep == note/12 (f32 division, exactly); for finite v in [0,10]: |stairstep + fraction - v| <= 2 ulp(v) (ulp of 1.0 below 1 V); outside [0,10]: stairstep + fraction reproduces v or its clamped value within the same tolerance; chromatic scale without history: 0 <= fraction < 1 semitone (+-10 microvolts, the quantizer's stated tie tolerance); when the window kept the previous note: -0.1 <= fraction <= 1.1 semitones
 #[kani::proof]
 #[kani::unwind(14)]
 fn c19_record_consistency() {
@@ -319,7 +330,7 @@ fn c19_record_consistency() {
             vassert!(e_in <= tol(v) || e_cl <= tol(clamped), "C19/out-of-range-reproduces-input-or-clamped");
         }
         if chromatic && !hist && v >= 0.0 && v <= 10.0 {
-            vassert!(c.fraction as f64 >= -1.0e-6 && (c.fraction as f64) < semi + 1.0e-6, "C19/chromatic-fraction-in-[0,1)-semitone");
+            vassert!(c.fraction as f64 >= -1.0e-5 && (c.fraction as f64) < semi + 1.0e-5, "C19/chromatic-fraction-in-[0,1)-semitone");
         }
         let kept = still_allowed && c.note_num == n0
             && (v as f64) > (n0 as f64 - 0.1) / 12.0 - 1.0e-6 && (v as f64) < (n0 as f64 + 1.1) / 12.0 + 1.0e-6;
